@@ -650,3 +650,43 @@ Proof.
     assert (E' : map snd order = map snd pre ++ p :: map snd suf) by (rewrite E, map_app; reflexivity).
     destruct (cfirst_split _ [] (cfirst_b_sound _ [] H5) _ _ _ E' q Hq) as [H|[[]|H]]; auto.
 Qed.
+
+(* =====================  GLUE with Proofs/TdotFacts.v (builder c01td)  =====================
+   NOT compiled here because TdotFacts.v lives on another branch.  The following was compiled
+   (Coq 8.16.1, "Closed under the global context") against c01td commit 693f0da with
+     From Ctg Require Import ... ExecOrderFacts TdotFacts.
+   It discharges the hypothesis tdot_step_ok_at (from node_exec_is_einsum) and yields the
+   UNCONDITIONAL theorem: any valid order, any prefer_einsum, linear execution = einsum.
+   After merging both branches, paste into a new file (e.g. Proofs/ExecOrderTdot.v):
+
+Lemma NoDup_root_inds n sl : NoDup (output n) -> NoDup (lkeys (root_legs n sl)).
+Proof.
+  intros H. unfold root_legs, lkeys. rewrite map_map. cbn [fst]. rewrite map_id.
+  apply NoDup_filter, H.
+Qed.
+
+Theorem tdot_step_ok_holds n sl e0 t : inrange n (leaves t) -> NoDup (output n) ->
+  tdot_step_ok_at n sl e0 t.
+Proof.
+  intros HR HO b l r L R Hin Hb Hcd HsL HsR.
+  destruct (post_sub_inrange n t HR _ Hin) as (l' & r' & E & HR2). injection E as <- <-.
+  assert (NDp : NoDup (inds n sl b (Node l r))).
+  { destruct b; cbn [inds]; [apply NoDup_root_inds, HO|apply (inds_sub_spec n sl (Node l r)), HR2]. }
+  assert (Ev : node_exec n sl e0 false b l r L R = tdot_val n sl b l r L R).
+  { unfold node_exec, tdot_val. rewrite Hcd. reflexivity. }
+  pose proof (node_exec_is_einsum n sl e0 false b l r L R HR2 NDp HsL HsR) as [H1 H2].
+  rewrite Ev in H1, H2. cbn [fst snd] in H1, H2.
+  split; [exact H1|]. intros pos Hpos. apply H2.
+  rewrite H1. rewrite Hpos. symmetry. apply map_length.
+Qed.
+
+Theorem exec_any_order_any_pref_is_einsum n sl arr e0 pe l r order :
+  wf_net n -> full_tree n (Node l r) -> valid_order (Node l r) order ->
+  forall e, agree_removed sl e0 e ->
+  snd (exec_program n sl arr e0 (program n sl pe (Node l r) order) (Node l r)) (map e (out_inds n sl))
+  = einsum_spec n sl arr e.
+Proof.
+  intros Hwf Hfull Hv. apply exec_order_any_pref_is_einsum; try assumption.
+  apply tdot_step_ok_holds; [apply full_tree_inrange, Hfull|apply Hwf].
+Qed.
+*)
